@@ -146,11 +146,15 @@ pub fn c18_local_timer_recorded() {
     local_timer_case(0, false);
     local_timer_case(1, true);
 }
-/// Local timer started while the local histogram holds an unflushed observation: recorded and
-/// discarded endings.
+/// Local timer started while the local histogram holds an unflushed observation, then recorded:
+/// the shared histogram ends with exactly the buffered observation plus the timer's.
 #[cfg_attr(kani, kani::proof, kani::unwind(5), kani::stub(std::time::Instant::now, instant_now_stub))]
 pub fn c18_local_timer_with_buffered_observation() {
     local_timer_case_buffered(1, false, true);
+}
+/// Same, timer discarded: only the buffered observation arrives.
+#[cfg_attr(kani, kani::proof, kani::unwind(5), kani::stub(std::time::Instant::now, instant_now_stub))]
+pub fn c18_local_timer_discarded_with_buffered_observation() {
     local_timer_case_buffered(2, true, true);
 }
 /// Local timer: stop_and_discard / dropped (clock symbolic).
@@ -186,6 +190,7 @@ pub fn dispatch(name: &str) -> Option<fn()> {
         "c18_shared_two_timers" => c18_shared_two_timers,
         "c18_local_timer_recorded" => c18_local_timer_recorded,
         "c18_local_timer_with_buffered_observation" => c18_local_timer_with_buffered_observation,
+        "c18_local_timer_discarded_with_buffered_observation" => c18_local_timer_discarded_with_buffered_observation,
         "c18_local_timer_discarded_or_dropped" => c18_local_timer_discarded_or_dropped,
         "c18_observe_closure_duration" => c18_observe_closure_duration,
         _ => return None,
